@@ -40,12 +40,20 @@ func coYield(L *LState) int {
 }
 
 func coResume(L *LState) int {
+	return resumeThread(L, false)
+}
+
+// resumeThread resumes the thread in argument 1. wrapped tells how the
+// resumer wants the outcome: a function made by coroutine.wrap gets the
+// plain values and errors are raised in it, coroutine.resume gets a leading
+// boolean -- also for a thread that coroutine.wrap created.
+func resumeThread(L *LState, wrapped bool) int {
 	th := L.CheckThread(1)
 	// a thread that is running, or that has resumed another one and waits for it ("normal"),
 	// is not suspended: resuming it again would re-enter its frames
 	if L.G.CurrentThread == th || th.Parent != nil {
 		msg := "can not resume a running thread"
-		if th.wrapped {
+		if wrapped {
 			L.RaiseError(msg)
 			return 0
 		}
@@ -55,7 +63,7 @@ func coResume(L *LState) int {
 	}
 	if th.Dead {
 		msg := "can not resume a dead thread"
-		if th.wrapped {
+		if wrapped {
 			L.RaiseError(msg)
 			return 0
 		}
@@ -64,6 +72,7 @@ func coResume(L *LState) int {
 		return 2
 	}
 	th.Parent = L
+	th.wrapped = wrapped
 	L.G.CurrentThread = th
 	if !th.isStarted() {
 		cf := th.stack.Last()
@@ -116,7 +125,7 @@ func coStatus(L *LState) int {
 
 func wrapaux(L *LState) int {
 	L.Insert(L.ToThread(UpvalueIndex(1)), 1)
-	return coResume(L)
+	return resumeThread(L, true)
 }
 
 func coWrap(L *LState) int {
